@@ -37,7 +37,7 @@ def _v(rec, clause, sig, *a, **k):
 
 def units(tier, seed):
     out = [dict(kind="lat2", size=s, part=p, tier=tier, seed=seed) for s in ((3, 4) if tier == "quick" else (3, 4, 5)) for p in range(3)]
-    out += [dict(kind="fixed", which=w, tier=tier, seed=seed) for w in range(23)]
+    out += [dict(kind="fixed", which=w, tier=tier, seed=seed) for w in range(25)]
     out += [dict(kind="gamut", tier=tier, seed=seed), dict(kind="estimator", tier=tier, seed=seed)]
     for k in ((2, 3) if tier == "quick" else (2, 3, 4)):
         out.append(dict(kind="js", k=k, tier=tier, seed=seed))
@@ -241,11 +241,17 @@ def run_unit(unit, rec):
             clouds.append(("flatthin-%d-in-3d" % asp, np.hstack([Yp, np.full((6, 1), 2.0)]) @ R3.T + 1.5))
             clouds.append(("flatthin-%d-in-4d" % asp, np.hstack([Yp, np.full((6, 1), 2.0), Yp[:, :1] * 0.5]) + 0.25))
             clouds.append(("thin-%d-2d" % asp, Yp @ R3[:2, :2].T + 0.5))
-        assert len(clouds) == 22
+        # tall flat clouds (many points: scikit-learn's PCA takes its covariance path, singular values only accurate to sqrt(eps))
+        gy, gx = np.meshgrid(np.arange(8.0), np.arange(11.0) * 2.5)
+        G2 = np.stack([gx.ravel(), gy.ravel()], axis=1)
+        F5 = np.array([[0.6, 0.8, 0, 0, 0], [0, 0, 0.6, 0, 0.8]])
+        clouds.append(("flatmany-88-in-5d", G2 @ F5 + 0.75))
+        clouds.append(("flatmany-88-in-3d", np.hstack([G2, np.full((88, 1), 1.0)]) @ R3.T))
+        assert len(clouds) == 24
         for name, P in (clouds[unit["which"] : unit["which"] + 1]):
-            _check_cloud(rec, dreye, name, P, name.split("-")[0], seed, motions=("thin" not in name or name.endswith("16-in-3d") or name.endswith("1024-in-3d")))
+            _check_cloud(rec, dreye, name, P, name.split("-")[0], seed, motions=(("thin" not in name and "many" not in name) or name.endswith("16-in-3d") or name.endswith("1024-in-3d")))
         # zonotopes: mean width closed form sum ||g_k|| Gamma(d/2) / (sqrt(pi) Gamma((d+1)/2))
-        for (m, n) in (((2, 3), (3, 3), (3, 4), (4, 5)) if unit["which"] == 22 else ()):
+        for (m, n) in (((2, 3), (3, 3), (3, 4), (4, 5)) if unit["which"] == 24 else ()):
             G = AL.A_palette(m, n, seeded=False)[-1][1]
             r = 1.0 + np.arange(n) / 4.0
             V = AL.lattice(np.zeros(n), r, (0.0, 1.0)) @ G.T
